@@ -372,6 +372,7 @@ func init() {
 			}
 			allowed := map[string]bool{"LockExclusively": true, "UnlockExclusively": true, "Delete": true, // tindex, non-blocking
 				"Size": true, "Chunks": true, "LocalFolder": true, "Name": true, // journal accessors
+				"Sync": true, // journal.Sync: flushes the chunk writer; takes locks of the chunk controller / writer only, which nobody can hold for long without an acquisition of the partition (and then the exclusive lock was not granted)
 				"Warn": true, "Debug": true, "Error": true, "Info": true}
 			ast.Inspect(dj.Body, func(m ast.Node) bool {
 				c, ok := m.(*ast.CallExpr)
@@ -391,6 +392,85 @@ func init() {
 				return true
 			})
 		}
+		// every way out of the exclusive section unlocks: after the `if !LockExclusively(…) { return }` guard no `return` (and no
+		// panic) is reached while the lock is held
+		lockedExits := []string{}
+		if dj != nil {
+			isCall := func(e ast.Expr, name string) bool {
+				c, ok := e.(*ast.CallExpr)
+				if !ok {
+					return false
+				}
+				se, ok := c.Fun.(*ast.SelectorExpr)
+				return ok && se.Sel.Name == name
+			}
+			var walk func(l []ast.Stmt, locked bool) (bool, bool)
+			walk = func(l []ast.Stmt, locked bool) (bool, bool) {
+				for _, st := range l {
+					switch x := st.(type) {
+					case *ast.ExprStmt:
+						if isCall(x.X, "UnlockExclusively") {
+							locked = false
+						}
+						if c, ok := x.X.(*ast.CallExpr); ok {
+							if id, ok := c.Fun.(*ast.Ident); ok && id.Name == "panic" {
+								if locked {
+									lockedExits = append(lockedExits, "panic at "+fset.Position(x.Pos()).String())
+								}
+								return locked, true
+							}
+						}
+					case *ast.ReturnStmt:
+						if locked {
+							lockedExits = append(lockedExits, "return at "+fset.Position(x.Pos()).String())
+						}
+						return locked, true
+					case *ast.IfStmt:
+						// the guard: `if !…LockExclusively(…) { return }` — the lock is held after it, not inside it
+						guard := false
+						if u, ok := x.Cond.(*ast.UnaryExpr); ok && u.Op == token.NOT && isCall(u.X, "LockExclusively") {
+							guard = true
+						}
+						if guard {
+							locked = true
+							continue
+						}
+						l1, t1 := walk(x.Body.List, locked)
+						l2, t2 := locked, false
+						if x.Else != nil {
+							if b, ok := x.Else.(*ast.BlockStmt); ok {
+								l2, t2 = walk(b.List, locked)
+							}
+						}
+						switch {
+						case t1 && t2:
+							return locked, true
+						case t1:
+							locked = l2
+						case t2:
+							locked = l1
+						default:
+							locked = l1 || l2
+						}
+					case *ast.AssignStmt:
+						for _, r := range x.Rhs {
+							if isCall(r, "UnlockExclusively") {
+								locked = false
+							}
+						}
+					case *ast.ForStmt, *ast.RangeStmt, *ast.SwitchStmt, *ast.SelectStmt, *ast.GoStmt, *ast.DeferStmt:
+						if locked {
+							lockedExits = append(lockedExits, fmt.Sprintf("%T inside the exclusive section at %s", st, fset.Position(st.Pos())))
+						}
+					}
+				}
+				return locked, false
+			}
+			if locked, _ := walk(dj.Body.List, false); locked {
+				lockedExits = append(lockedExits, "the function body ends with the lock held")
+			}
+		}
+
 		// who takes exclusive locks at all (non-test code of /repo)
 		lockers := []string{}
 		filepath.Walk(filepath.Join(repo, "pkg"), func(p string, info os.FileInfo, err error) error {
@@ -466,6 +546,9 @@ func init() {
 		l.p("/-- calls inside `partition.Service.deleteJournal` between `LockExclusively` and the last `UnlockExclusively` other")
 		l.p("than the non-blocking tindex calls, journal accessors and logging -/")
 		l.p("def blockingCallsInsideExclusiveSection : List String := %s", strList(blocking))
+		l.p("/-- ways out of `deleteJournal` (return, panic, end of the body) reached while the exclusive lock is held, and loops /")
+		l.p("switches / goroutines / defers inside the exclusive section — the section must be straight-line and unlock on every exit -/")
+		l.p("def exclusiveSectionLockedExits : List String := %s", strList(lockedExits))
 		l.p("/-- functions outside pkg/tindex that call `LockExclusively` -/")
 		l.p("def lockExclusivelyCallers : List String := %s", strList(lockers))
 		l.p("/-- `GetJournals`' visitor calls `Release` on the partition it is visiting (before it aborts on a failed")
